@@ -14,3 +14,7 @@
     }
     /// the valid (actually read) bytes after the cursor
     spec fn avail(&self) -> Seq<u8> { self.buffer@.subrange(self.internal_buffer_position as int, self.buffered_byte_length as int) }
+    /// fields the buffer layer never touches
+    spec fn frame(&self, o: &Self) -> bool {
+        self.allowed_errors == o.allowed_errors && self.max_allowed_tag_size == o.max_allowed_tag_size && self.tag_stack == o.tag_stack && self.has_determined_doc_path == o.has_determined_doc_path
+    }
